@@ -444,7 +444,9 @@ pub fn check_c07(tier: &str) -> ! {
 	rep.sample(json!({"input": inputs.iter().find(|s| has_dup(&s.units()) && s.units().len() >= 4).map(|s| s.describe()), "expected": "None (a lock is reachable twice)"}));
 	rep.sample(json!({"input": inputs.iter().rev().find(|s| !has_dup(&s.units()) && s.units().len() >= 3).map(|s| s.describe()), "expected": "Some(collection); lock+unlock round trip holds exactly its leaves"}));
 	rep.set("rule", "every member list of length 0..6 over 5 rwlock leaves (0..4 over 3 mutex leaves) for Boxed/Ref/Retrying::try_new, plus nested Boxed/Ref/Retrying/Owned/Poisonable members over every sub-list next to every short list, native arrays/tuples/boxed slices; oracle: None iff the multiset of units (leaf locks; an owned collection counts as one unit) has a repeat by identity; every accepted collection must lock exactly its leaves. Non-trivial = inputs that contain a duplicate (distinct inputs counted)");
-	rep.notes.push("the compile-time clause (new/new_ref only accept owning inputs) is decided by the C15 corpus".into());
+	// the compile-time clause: new / new_ref (and From / FromIterator / Extend) are accepted only for owning inputs
+	crate::corpus::run_route("new-with-reference-input", "C07", &mut rep);
+	rep.notes.push("the compile-time clause (new/new_ref only accept owning inputs) is decided by the corpus route new-with-reference-input (also part of C15)".into());
 	rep.finish()
 }
 
